@@ -42,3 +42,106 @@ PROPS = {
         assumptions=["callbacks of DFS are pure (descend/abort decided per vertex)"],
     ),
 }
+
+W = lambda test, defect, **kw: dict(test=test, defect=defect, **kw)
+
+RES = "resolver"
+PROPS.update({
+    "C01": dict(layer=RES,
+        streams=[S("call", "run_prop CFull P01", 500, 16000), S("built", "run_prop CFull P01", 250, 6000),
+                 S("once", "run_prop CFull P01", 200, 6000), S("convert", "run_prop CFull P01", 150, 4000),
+                 S("call", "run_prop CPanic P01", 200, 4000, variant="nat")],
+        witness=[W("TestD1", "D1"), W("TestD16", "D16")],
+        nontrivial_rule="at least two function executions in the history",
+        explanation="Theorem C01 (proofs/C01Labels*.v): in every run of the model, for every order tape, each execution receives for each declared parameter a value that was supplied or returned by an earlier execution, with a label compatible under the matching table and an assignable type (predicate c01_ok, ResolverSpec.c01_events); the same predicate is evaluated on the implementation's traces. Correspondence: full ordered execution trace with provenance of every argument.",
+        assumptions=["type universe of the harness: 6 concrete types, 2 interfaces (one implementing the other)", "names/subtypes are ASCII identifiers"]),
+    "C02": dict(layer=RES,
+        streams=[S("call", "run_prop CFids P02", 500, 16000), S("once", "run_prop CFids P02", 200, 6000),
+                 S("malformed", "run_prop CFids P02", 150, 4000), S("call", "run_prop CPanic P02", 200, 4000, variant="nat")],
+        witness=[W("TestD3", "D3")],
+        nontrivial_rule="at least two function executions in the history",
+        explanation="Theorem C02 (proofs/C0213Unsat*.v): if the target is not derivable (AND-OR derivability over the full call graph; memoized run-once functions count as providers, the documented FuncOnce semantics) the call is an error, the target does not run, and when every converter is satisfiable the error is the unsatisfied-argument error. Correspondence: outcome class, error identity and ordered (function, error) trace.",
+        assumptions=[]),
+    "C03": dict(layer=RES,
+        streams=[S("exact", "run_prop CFull P03", 500, 16000), S("call", "run_prop CFull P03", 300, 8000),
+                 S("exact", "run_prop CPanic P03", 200, 4000, variant="nat")],
+        witness=[W("TestD2", "D2")],
+        nontrivial_rule="scenario with at least two executions or an exactly matched multi-parameter target",
+        explanation="Theorem C03 (proofs/C03Exact*.v): when every parameter has an exactly matching supplied value the call succeeds without executing a converter and binds exactly those values (named) / a supplied value of exactly the type (type-only), for every tape and any distractors. Correspondence: full trace on the exact-match stream (with distractor inputs, converters, providers, case variants, duplicates, defaults).",
+        assumptions=[]),
+    "C04": dict(layer=RES,
+        streams=[S("call", "run_prop CFids P04", 500, 16000), S("built", "run_prop CFids P04", 200, 6000),
+                 S("convert", "run_prop CFids P04", 150, 4000), S("once", "run_prop CFids P04", 150, 4000),
+                 S("call", "run_prop CPanic P04", 200, 4000, variant="nat")],
+        witness=[],
+        nontrivial_rule="at least two function executions in the history",
+        explanation="Theorems C04_errors (unconditional) and C04 (under well-formed use) (proofs/C04Errors*.v): a failing execution is the last event of the trace and its error is what the call returns; a result without error executed no failing function; a resolution failure never runs the target. C04_unrestricted_refuted shows the hypothesis is needed. Correspondence: ordered (function, error) trace and error identity (pointer-equal error values).",
+        assumptions=[]),
+    "C09": dict(layer=RES,
+        streams=[S("redeftwin", "run_twin CFull 9", 300, 8000), S("once", "run_prop2 CFull 9", 250, 6000), S("redefine", "run_prop2 CFull 9", 250, 6000)],
+        witness=[],
+        nontrivial_rule="history with at least one execution",
+        explanation="Theorem C09 (proofs/C0911Once*.v): every Redefine of the model returns the world (memo table, execution counter) unchanged and its trace contains no execution of a user function. Correspondence: histories mixing Call and Redefine on shared run-once converters; monitor: no body runs during Redefine; twin run: the same history with the Redefine operations erased gives identical observations for every Call.",
+        assumptions=[]),
+    "C10": dict(layer=RES,
+        streams=[S("converttwin", "run_twin CFull 0", 300, 8000), S("convert", "run_prop CFull P01", 200, 6000)],
+        witness=[],
+        nontrivial_rule="conversion with at least one converter execution",
+        explanation="Theorem C10 (proofs/C10C16Opts*.v): Convert is Call on the synthesised identity function; it returns a value exactly when that call succeeds, the value is the argument the identity received and has the target type. Correspondence: Go Convert vs the model, and a twin Go Call on a hand-written identity function must agree (success, value, error class, executions).",
+        assumptions=["target types of the harness universe (the interface type error is not in it)"]),
+    "C11": dict(layer=RES,
+        streams=[S("once", "run_prop2 CFids 11", 400, 12000), S("redeftwin", "run_twin CFids 11", 200, 4000),
+                 S("conconce", "check_conconce_all", 40, 600, variant="race")],
+        witness=[W("TestD9", "D9"), W("TestD12", "D12", race=True)],
+        nontrivial_rule="history with at least two executions (sequential) / every concurrent case",
+        explanation="Theorem C11 (sequential, proofs/C0911Once*.v): a memoized function never runs again and keeps its memo; otherwise it runs at most once per call and is memoized afterwards. Theorems C11_conc/C11_conc_progress (proofs/C1112Conc*.v): in the interleaving model of the lock-protected protocol the body runs at most once under EVERY schedule, finished threads saw that result, and the protocol does not deadlock; C11_unlocked_refuted: without the lock two executions are possible. Partial by nature: atomic sequentially-consistent steps abstract the Go memory model. Correspondence: histories with shared run-once converters; forced concurrent first use under the race detector (body held open until all goroutines arrived).",
+        assumptions=["concurrent half: interleaving model with atomic steps, not the Go memory model"]),
+    "C16": dict(layer=RES,
+        streams=[S("exact", "run_prop CFull P03", 500, 16000), S("malformed", "run_prop CFull P06", 200, 6000), S("call", "run_prop CFull P03", 200, 6000)],
+        witness=[],
+        nontrivial_rule="scenario with at least two executions or an exactly matched multi-parameter target",
+        explanation="Theorem C16 (proofs/C10C16Opts*.v): a nil option is an error result; for every slot (name / name+subtype / type / type+subtype, names lower-cased) the builder holds the LAST value written by defaults ++ call options, nil values write nothing; the converter list is the in-order concatenation; permuting options that write pairwise distinct slots changes no slot. Correspondence: provenance of injected values on the exact-match stream with case variants, duplicate keys, default/call splits, shuffled option order, nil values and nil options.",
+        assumptions=["ASCII names (Go's ToLower is Unicode-aware; the model's is ASCII)"]),
+})
+
+PROPS.update({
+    "C14": dict(layer="none",
+        streams=[S("sig", "check_sig_all", 600, 20000), S("sig", "check_sig_all", 200, 4000, variant="nat")],
+        witness=[W("TestD10", "D10")],
+        nontrivial_rule="signature with at least one parameter or result",
+        explanation="Theorem C14 (proofs/C141517VS*.v) over the model of NewFunc/newValueSet/newValueSetFromStruct incl. struct-tag parsing: rejected exactly for non-functions, marker structs mixed with other parameters/results and marker structs behind more than one pointer; otherwise one value per positional parameter/result or exported non-marker field, in order, name from the tag if it gives one else from the field, always lower-cased, emptied by typeOnly, subtype = text after the first '=' of the last subtype option; final error excluded; *struct equivalent to struct. Correspondence: random signatures built with reflect.FuncOf/StructOf (tags from a grammar incl. unknown and repeated options, '=' inside subtypes, extra keys in the raw tag) plus static structs with unexported fields and a marker that is not the first field; the Coq term of every signature is derived from the reflect.Type itself.",
+        assumptions=["ASCII names", "tag values without quote or backslash characters"]),
+    "C15": dict(layer="none",
+        streams=[S("vset", "check_vset_all", 500, 16000), S("built", "run_prop CFull P01", 300, 8000), S("built", "run_prop CFull P04", 200, 6000)],
+        witness=[W("TestD4", "D4")],
+        nontrivial_rule="value list with at least two values / scenario with at least two executions",
+        explanation="Theorem C15 (proofs/C141517VS*.v): a value set built from a list of values (subtypes without commas, names distinct up to case) reports them back in order with lower-cased names, finds every named value by name, a type-only value by type, and by type+subtype when unique. Correspondence: NewValueSet with random lists, all accessors, Signature/SignatureValues/FromSignature round trip into a fresh set; stream built: functions assembled with BuildFunc inside conversion chains must behave exactly like the model's ordinary struct-form functions (full trace, error pass-through).",
+        assumptions=["BuildFunc functions are modelled as struct-in/struct-out functions with a final error; the sharing of their value sets with the callback is exercised, not modelled"]),
+    "C17": dict(layer="none",
+        streams=[S("results", "check_res_all", 600, 20000), S("once", "run_prop CFull P04", 200, 6000)],
+        witness=[],
+        nontrivial_rule="function with at least one result",
+        explanation="Theorem C17 (proofs/C141517VS*.v) over the model of result.go: k values followed by an error give length k, outputs in order and Err = the final value (nil when nil); a final value of a concrete error type or an error that is not last are ordinary outputs; a resolution failure gives length 0 and a non-nil error. Correspondence: functions of random result shapes (plain values, error interface at any position, *myErr concrete error type, nil and non-nil) called through Call; Len/Out(i)/Err compared by identity.",
+        assumptions=[]),
+})
+
+PROPS.update({
+    "C12": dict(layer=RES,
+        streams=[S("concshare", "check_concshare_all", 40, 800, variant="race"), S("conconce", "check_conconce_all", 20, 300, variant="race")],
+        witness=[W("TestD11", "D11", race=True)],
+        crash_is_violation=True,
+        nontrivial_rule="scenario with at least two functions",
+        explanation="PARTIAL (the Go memory model cannot be expressed by an executable Gallina model). Theorem C12_footprint: the table of statements that can write to state shared between calls -- regenerated from the current sources on every run by tools/genfootprint (receiver-rooted writes, writes to captured variables of closures, package variables, append into receiver/captured/package-rooted slices) -- contains only the audited entries and every write to a *Func happens under its lock. Theorems C12_nowrite / C12_independent (proofs/C1112Conc*.v): in the model a call whose functions are ordinary writes no shared state and its result does not depend on it, hence every concurrent call returns an outcome of a sequential execution. Supporting runs (not proof): goroutines sharing target, converter Funcs, option values and default slices with spare capacity under the Go race detector; every outcome must be a sequential outcome.",
+        assumptions=["footprint extractor is syntactic and conservative (tools/genfootprint)", "interleavings explored by the race harness are sampled, not exhaustive"],
+        trusted_extra=["translator tools/genfootprint (go/ast + go/types pass over /repo/*.go -> coq/GenFootprint.v)", "Go race detector (supporting evidence only)"]),
+})
+
+PROPS.update({
+    "C13": dict(layer=RES,
+        streams=[S("call", "run_prop CFull P13", 500, 16000), S("malformed", "run_prop CFull P13", 150, 4000),
+                 S("once", "run_prop CFids P13", 150, 4000), S("call", "run_prop CPanic P13", 200, 4000, variant="nat")],
+        witness=[],
+        nontrivial_rule="at least two function executions in the history or an unsatisfied-argument outcome",
+        explanation="Theorem C13 (proofs/C0213Unsat*.v), no extra hypothesis: when some requirement of the target is hopeless (not OR-reachable from the supplied values) the call fails at graph construction with the unsatisfied-argument error whose missing list contains it, contains only pruned requirements of the target that are neither derivable nor exactly supplied, whose input list is the supplied values and whose converter list contains every supplied converter. Correspondence: errors.As, the three lists as sets (converter types in order), and that the message mentions each missing argument.",
+        assumptions=[]),
+})
